@@ -434,8 +434,16 @@ fn run_loom(cfg: Cfg, preemption_bound: Option<usize>, wall_cap_s: u64) -> Resul
 // replayer: real OS threads, one at a time, in the recorded order
 // ---------------------------------------------------------------------------
 
+/// What steers the baton-passing scheduler.
+enum Guide {
+    /// re-execute a recorded schedule (then round-robin if it stops fitting)
+    Trace(Vec<Ev>),
+    /// brute force: at decision point i take the choices[i]-th eligible thread (0 beyond the end)
+    Choices(Vec<usize>),
+}
+
 struct RState {
-    trace: Vec<Ev>,
+    guide: Guide,
     pos: usize,
     running: Option<u8>,
     parked: BTreeMap<u8, Kind>,
@@ -443,6 +451,10 @@ struct RState {
     diverged_at: Option<usize>,
     last: u8,
     executed: Vec<Ev>,
+    /// number of eligible threads at every decision point (brute force bookkeeping)
+    branching: Vec<usize>,
+    fa_count: u64,
+    seen_fa: BTreeMap<u8, u64>,
 }
 
 struct Replayer {
@@ -451,26 +463,56 @@ struct Replayer {
 }
 
 impl Replayer {
-    fn new(trace: Vec<Ev>, live: usize) -> Replayer {
+    fn new(guide: Guide, live: usize) -> Replayer {
         Replayer {
-            st: Mutex::new(RState { trace, pos: 0, running: None, parked: BTreeMap::new(), live, diverged_at: None, last: 0, executed: vec![] }),
+            st: Mutex::new(RState {
+                guide,
+                pos: 0,
+                running: None,
+                parked: BTreeMap::new(),
+                live,
+                diverged_at: None,
+                last: 0,
+                executed: vec![],
+                branching: vec![],
+                fa_count: 0,
+                seen_fa: BTreeMap::new(),
+            }),
             cv: Condvar::new(),
         }
     }
 
-    /// Deterministic choice of the next thread once every live thread is parked.
-    fn pick(s: &mut RState) -> u8 {
-        if s.diverged_at.is_none() {
-            if let Some(ev) = s.trace.get(s.pos) {
-                if s.parked.get(&ev.t) == Some(&ev.k) {
-                    return ev.t;
+    /// Deterministic choice of the next thread once every live thread is parked;
+    /// also returns how many threads were eligible.
+    fn pick(s: &mut RState) -> (u8, usize) {
+        match &s.guide {
+            Guide::Trace(trace) => {
+                if s.diverged_at.is_none() {
+                    if let Some(ev) = trace.get(s.pos) {
+                        if s.parked.get(&ev.t) == Some(&ev.k) {
+                            return (ev.t, 1);
+                        }
+                    }
+                    s.diverged_at = Some(s.pos);
                 }
+                // the recorded schedule no longer fits this tree: continue round-robin
+                let last = s.last;
+                (s.parked.keys().copied().find(|t| *t > last).unwrap_or_else(|| *s.parked.keys().next().unwrap()), 1)
             }
-            s.diverged_at = Some(s.pos);
+            Guide::Choices(choices) => {
+                // same stutter reduction as under loom: a reader in its spin loop is not
+                // eligible before the writer's next fetch_add
+                let eligible: Vec<u8> = s
+                    .parked
+                    .iter()
+                    .filter(|(t, k)| !(**k == Kind::Yield && s.seen_fa.get(*t).copied().unwrap_or(0) == s.fa_count))
+                    .map(|(t, _)| *t)
+                    .collect();
+                assert!(!eligible.is_empty(), "brute force: every live thread is spinning");
+                let c = choices.get(s.pos).copied().unwrap_or(0);
+                (eligible[c], eligible.len())
+            }
         }
-        // the recorded schedule no longer fits this tree: continue round-robin
-        let last = s.last;
-        s.parked.keys().copied().find(|t| *t > last).unwrap_or_else(|| *s.parked.keys().next().unwrap())
     }
 
     fn turn(&self, t: u8, k: Kind) {
@@ -482,12 +524,22 @@ impl Replayer {
         self.cv.notify_all();
         loop {
             if s.running.is_none() && s.parked.len() == s.live {
-                if Self::pick(&mut s) == t {
+                let (who, n) = Self::pick(&mut s);
+                if who == t {
                     s.parked.remove(&t);
                     s.running = Some(t);
                     s.pos += 1;
                     s.last = t;
                     s.executed.push(Ev { t, k });
+                    s.branching.push(n);
+                    match k {
+                        Kind::FetchAdd => s.fa_count += 1,
+                        Kind::Load => {
+                            let n = s.fa_count;
+                            s.seen_fa.insert(t, n);
+                        }
+                        _ => {}
+                    }
                     return;
                 }
                 self.cv.notify_all();
@@ -510,10 +562,45 @@ pub struct ReplayOutcome {
     pub reads: Vec<ReadRec>,
     pub executed: Vec<Ev>,
     pub diverged_at: Option<usize>,
+    pub branching: Vec<usize>,
 }
 
 fn run_replay(cfg: Cfg, trace: &[Ev]) -> ReplayOutcome {
-    let rp = Arc::new(Replayer::new(trace.to_vec(), 1 + cfg.readers as usize));
+    run_guided(cfg, Guide::Trace(trace.to_vec()))
+}
+
+/// Brute-force enumeration (no loom) of EVERY schedule of the configuration, with every
+/// step - including thread starts - as a decision point. Returns (schedules, outcome set).
+fn brute_force(cfg: Cfg, t0: Instant, wall_cap_s: u64) -> Result<(u64, BTreeSet<Vec<ReadRec>>), String> {
+    let mut choices: Vec<usize> = vec![];
+    let mut n = 0u64;
+    let mut outcomes = BTreeSet::new();
+    loop {
+        if t0.elapsed().as_secs() > wall_cap_s {
+            return Err(format!("wall cap hit after {n} schedules"));
+        }
+        let out = run_guided(cfg, Guide::Choices(choices.clone()));
+        n += 1;
+        oracle(&cfg, &out.reads).map_err(|v| format!("brute force found a violation loom did not: {} / {}", v.sig, v.msg))?;
+        outcomes.insert(out.reads);
+        // next path in depth-first order
+        choices.resize(out.branching.len(), 0);
+        loop {
+            match choices.pop() {
+                None => return Ok((n, outcomes)),
+                Some(c) => {
+                    if c + 1 < out.branching[choices.len()] {
+                        choices.push(c + 1);
+                        break;
+                    }
+                }
+            }
+        }
+    }
+}
+
+fn run_guided(cfg: Cfg, guide: Guide) -> ReplayOutcome {
+    let rp = Arc::new(Replayer::new(guide, 1 + cfg.readers as usize));
     *REPLAYER.lock().unwrap() = Some(rp.clone());
     MODE.store(MODE_REPLAY, Ordering::SeqCst);
     let (writer, reader) = unsafe { SeqLock::new([0u64; 4]) };
@@ -539,7 +626,7 @@ fn run_replay(cfg: Cfg, trace: &[Ev]) -> ReplayOutcome {
     MODE.store(MODE_OFF, Ordering::SeqCst);
     *REPLAYER.lock().unwrap() = None;
     let s = rp.st.lock().unwrap();
-    ReplayOutcome { reads, executed: s.executed.clone(), diverged_at: s.diverged_at }
+    ReplayOutcome { reads, executed: s.executed.clone(), diverged_at: s.diverged_at, branching: s.branching.clone() }
 }
 
 // ---------------------------------------------------------------------------
